@@ -10,7 +10,7 @@ import (
 func (e *Engine) lemmaCtx() *fnCtx {
 	em := newEmit()
 	c := &fnCtx{eng: e, em: em, vals: nil, occ: map[string]int{}, dead: map[string]bool{}}
-	fmt.Fprintf(&em.out, "(declare-fun elem (Int Int) Int)\n(declare-fun elem_arr (Int) Int)\n(declare-fun elem_idx (Int) Int)\n(declare-fun rkind (Int) Int)\n(declare-fun owner (Int) Int)\n(assert (= (owner 0) 0))\n")
+	fmt.Fprintf(&em.out, "(declare-fun elem (Int Int) Int)\n(declare-fun elem_arr (Int) Int)\n(declare-fun elem_idx (Int) Int)\n(declare-fun rkind (Int) Int)\n(declare-fun owner (Int) Int)\n(declare-fun atype (Int) Int)\n(assert (= (owner 0) 0))\n")
 	c.st = &State{epoch: 0, m: map[string]string{}}
 	em.wm0 = c.heapGet("$wm")
 	c.entry = c.st.clone()
